@@ -51,7 +51,10 @@ class LindbladForm(RedfieldRelaxationTensor):
         if sbi is None:
             KK = numpy.zeros((1, Na, Na), dtype=REAL)
         else:
-            KK = sbi.KK
+            # the form transforms its operators in place when the basis
+            # changes; it must not do that to the operators of the 
+            # system-bath interaction, which other objects use as well
+            KK = sbi.KK.copy()
             
         self._post_implementation(KK, llm, lld)
 
